@@ -59,6 +59,9 @@ THEOREMS = [
     "Verif.C10.window_points_le",
     "Verif.C10.window_bookkeeping",
     "Verif.C10.bin_width_constructed",
+    "Verif.C10.peaks_then_exclude",
+    "Verif.C10.peaks_then_exclude_only",
+    "Verif.C10.excludePeaks_ok",
 ]
 RULE = "filled in below"
 TRUSTED = [
@@ -313,6 +316,7 @@ def run_chain(case):
         return (src_path[0] + [token], [v for v, k_ in zip(src_path[1], m_exact) if k_], src_path[2])
 
     completed = False
+    last_peaks = None  # (object the latest identify_peaks ran on, its answer, flat, baseline, cutoff)
     for st, src_obj, _ in plan(case):
         if objs[0] is None:
             break
@@ -337,11 +341,29 @@ def run_chain(case):
                 fit = "?" if isinstance(fit, str) else priv(ps, "_fit_range")
                 answers.append(f"{ratlist(ps.frequency)} {ratlist(ps.power)} " + ("? ?" if isinstance(fit, str) else f"{enc_rat(float(fit[0]))} {enc_rat(float(fit[1]))}"))
             elif kind == "exclude":
+                from_peaks = len(st) > 2 and st[2] == "from-peaks"
+                if st[1] is None:
+                    # the ranges the latest identify_peaks call returned (filled in once, then part of the case)
+                    st[1] = [] if last_peaks is None else [[float(a), float(b)] for a, b in last_peaks[1]]
                 rs = [(a, b) for a, b in st[1]]
-                ops.append(f"c10.exclude {enc_list(rs, lambda r: enc_rat(r[0]) + ':' + enc_rat(r[1]))} {ratlist(f_in)} {ratlist(p_in)}")
+                composite = False
+                if from_peaks and last_peaks is not None and last_peaks[0] is ps and len(f_in) >= 2 and [list(r) for r in rs] == [[float(a), float(b)] for a, b in last_peaks[1]]:
+                    # identify_peaks -> _exclude_range as ONE model run, where the reported upper edges are exact sums
+                    # frequency[x1] + df (the model adds exactly); otherwise the plain exclusion with the code's ranges
+                    fq = [F(v) for v in f_in]
+                    dfq = fq[1] - fq[0]
+                    composite = all(F(b) - dfq in fq for _, b in rs)
+                if composite:
+                    _chain_stats["peaks_then_exclude_composite"] = _chain_stats.get("peaks_then_exclude_composite", 0) + 1
+                    ops.append(f"c10.peaksexclude {nppb_in} {enc_rat(last_peaks[3])} {enc_rat(last_peaks[4])} {enc_list(last_peaks[2], enc_rat)} {ratlist(f_in)} {ratlist(p_in)}")
+                else:
+                    if from_peaks:
+                        _chain_stats["peaks_then_exclude_plain"] = _chain_stats.get("peaks_then_exclude_plain", 0) + 1
+                    ops.append(f"c10.exclude {enc_list(rs, lambda r: enc_rat(r[0]) + ':' + enc_rat(r[1]))} {ratlist(f_in)} {ratlist(p_in)}")
                 direct = priv(ps, "_exclude_range", None)
                 if direct is not None:
-                    path = extend(paths[src_obj], "e:" + enc_rs(rs), lambda v: not any(F(a) <= v < F(b) for a, b in rs), f_in)
+                    if not from_peaks:
+                        path = extend(paths[src_obj], "e:" + enc_rs(rs), lambda v: not any(F(a) <= v < F(b) for a, b in rs), f_in)
                     ps = direct(rs)
                 elif recipes[src_obj] is not None:
                     # the anchored private method is gone: the same exclusion on the same bins through the public call
@@ -399,6 +421,7 @@ def run_chain(case):
                 if failed is not None:
                     raise failed
                 answers.append(ans)
+                last_peaks = (ps, [(float(r[0]), float(r[1])) for r in res], flat, baseline, cutoff)
             else:
                 raise ValueError(kind)
         except Exception as e:  # mapped to the small enum, compared with the model's error answer
@@ -853,6 +876,7 @@ def oracle_chain(case, ia):
         ctx.update(raw=(list(f), list(p)), tsu=tsu, fs=src["fs"], nwin=int(ia[0].split(" ")[1]))
     else:
         f, p, nppb = [F(v) for v in src["freq"]], [F(v) for v in src["power"]], src.get("nppb", 1)
+    last_pk = None
     states = [(f, p, nppb)]  # states[j + 1]: the spectrum after the j-th applied step, as the property determines it
     for st, src_state, again in plan(case):
         if idx >= len(ia):
@@ -866,6 +890,19 @@ def oracle_chain(case, ia):
             return None
         if verdict:
             return ("second call on the same spectrum object: " if again else "") + verdict
+        if st[0] == "peaks" and not _is_err(ans) and len(st[1]) == len(states[src_state][1]):
+            last_pk = (src_state, st, ans)
+        if st[0] == "exclude" and len(st) > 2 and st[2] == "from-peaks" and last_pk is not None and states[last_pk[0]] == states[src_state] \
+                and [tuple(F(v) for v in r) for r in st[1]] == _pairs(last_pk[2]):
+            # the ranges identify_peaks returned, handed to the exclusion: no bin above the cut-off survives
+            f0, p0, _ = states[src_state]
+            pst = last_pk[1]
+            flat = peaks_flat(f0, p0, pst[1], pst[2], pst[3], last_pk[2])
+            if all(f0[i] < f0[i + 1] for i in range(len(f0) - 1)):
+                kept = set(state[0])
+                for i in range(len(f0)):
+                    if flat[i] > pst[3] and f0[i] in kept:
+                        return f"identify_peaks -> exclude: bin {i} exceeds the cut-off and survives the exclusion of the returned ranges"
         states.append(state)
     if idx < len(ia) and not _is_err(ia[idx]) and ia[idx] != "?":
         # the final object of the whole chain: a chain of range steps (no block average of >= 2 bins) keeps exactly the
@@ -905,7 +942,7 @@ def chain_path(case):
         if st[0] in ("binwidth", "peaks"):
             cur = src_obj
             continue
-        if st[0] not in ("inrange", "exclude", "block"):
+        if st[0] not in ("inrange", "exclude", "block") or (st[0] == "exclude" and len(st) > 2):
             return None
         path.append(st)
         cur = src_obj
@@ -1249,6 +1286,8 @@ def small_scope(quick):
             p = [LEVELS[i] for i in pat]
             src = {"freq": [0.5 * i for i in range(n)], "power": p}
             yield {"stream": "small-scope", "op": "chain", "src": src, "steps": [["peaks", [1.0] * n, 1.0, 5.0]]}
+            if n >= 2 and any(i == 4 for i in pat) and (n <= 5 or not quick):
+                yield {"stream": "small-scope", "op": "chain", "src": src, "steps": [["peaks", [1.0] * n, 1.0, 5.0], ["exclude", None, "from-peaks"]]}
     # calculate_power_spectrum: one exclusion range between every pair of bin positions, block sizes 1..3
     n = 16 if quick else 24
     x = [float(((i * i * 3 + i) % 11) - 5) + (0.25 if i % 4 == 1 else 0.0) for i in range(n)]
@@ -1399,6 +1438,8 @@ def cases(tier, rng):
                 cur = [f for f in cur if a_ < f <= b_]
             baseline, cutoff = gen_peaks_step(sub, len(cur))
             steps.append(["peaks", None, baseline, cutoff])
+            if sub.chance(0.5):
+                steps.append(["exclude", None, "from-peaks"])
         if which > 4 and fr and sub.chance(0.15):
             steps.append(["again"])  # the pipeline / peak identification a second time on the same object
         if rescale:
